@@ -264,6 +264,10 @@ impl NameCompressor {
                     break;
                 }
                 entry = &entry[..entry.len() - label.as_wire().len()];
+
+                // This label is covered by the entry, so it is not part of
+                // what remains of the name.
+                name_labels.next();
             }
 
             // Suffixes from 'entry' that were also in 'name' have been
